@@ -310,7 +310,7 @@ fn run_sink_scenario(out: &mut Out, scn: &Value, tag: usize) {
     let format: ResponseOutputFormat = if fmt == "json" {
         serde_json::from_value(json!({"type": "json", "newline_delimited": true})).unwrap()
     } else {
-        serde_json::from_value(json!({"type": "csv", "sorted": scn["sorted"], "mapping": {"rid": "rid", "len": "len", "pad": "pad"}})).unwrap()
+        serde_json::from_value(json!({"type": "csv", "sorted": scn["sorted"], "mapping": {"Rid": "rid", "len": "len", "Pad": "pad"}})).unwrap()   // column names of mixed case: header and rows must still agree
     };
     let policy = ResponseOutputPolicy::File {
         filename: path.to_str().unwrap().to_string(),
@@ -418,10 +418,10 @@ fn run_sink_scenario(out: &mut Out, scn: &Value, tag: usize) {
             } else {
                 let cells: Vec<&str> = line.split(',').collect();
                 let get = |name: &str| cols.iter().position(|c| *c == name).and_then(|p| cells.get(p)).map(|s| s.trim_matches('"').to_string()).unwrap_or_default();
-                let rid = get("rid").parse::<i64>().unwrap_or(-1);
+                let rid = get("Rid").parse::<i64>().unwrap_or(-1);
                 let want_len = plan.iter().flatten().find(|(r, _)| *r == rid).map(|(_, l)| *l).unwrap_or(usize::MAX);
                 let len_cell_ok = get("len").is_empty() || get("len").parse::<usize>().ok() == Some(want_len);
-                (rid, cells.len() == cols.len() && len_cell_ok && get("pad").len() == want_len && get("pad").bytes().all(|b| b == b'x'))
+                (rid, cells.len() == cols.len() && len_cell_ok && get("Pad").len() == want_len && get("Pad").bytes().all(|b| b == b'x'))
             };
             out.event(json!({"ev": "FileLine", "rid": rid, "intact": intact}));
         }
